@@ -24,7 +24,7 @@ SIZES = (0, 1, 2, 59, 60, 61, 130, 199, 200, 201, 450)
 
 def plan(tier, seed):
     cases = []
-    n = 420 if tier == "quick" else 12000
+    n = 1500 if tier == "quick" else 15000
     for i in range(n):
         cases.append({"mode": ("simbatch", "simctl", "live", "simctl", "betdaq", "simbatch", "live")[i % 7], "seed": seed, "idx": i})
     return cases
